@@ -321,12 +321,250 @@ pub fn owed_ref(p: &Position, cum: i128, cps: &CpRef, v: usize, t: &str) -> i128
     }
 }
 
+// --------------------------------------------------------------------------------------- reference position book
+/// Reference model of the engine's position records, kept by the harness and updated from public
+/// observations only (pre-state vAMM quotes, swap events of the transaction, cumulative premium
+/// fraction): what size, margin, open notional and funding checkpoint each position must have after
+/// each of its owner's actions. The stored record is compared with it after every such action, and the
+/// oracles of C04, C05 and C11 value positions from it rather than from the stored fields.
+#[derive(Clone, Debug, serde::Serialize, serde::Deserialize, PartialEq)]
+pub struct RefPos {
+    pub size: i64,
+    pub margin: i64,
+    pub notional: i64,
+    pub cp: i64,
+}
+pub type RefBook = BTreeMap<String, RefPos>;
+pub fn book_from_mon(mon: &serde_json::Value) -> RefBook {
+    serde_json::from_value(mon["book"].clone()).unwrap_or_default()
+}
+pub fn book_to_mon(b: &RefBook) -> serde_json::Value {
+    serde_json::json!({ "book": b })
+}
+/// the stored position with margin / notional / checkpoint replaced by the reference values
+pub fn with_ref(p: &Position, r: Option<&RefPos>) -> Position {
+    let mut q = p.clone();
+    if let Some(r) = r {
+        q.margin = cosmwasm_std::Uint128::new(r.margin.max(0) as u128);
+        q.notional = cosmwasm_std::Uint128::new(r.notional.max(0) as u128);
+        q.last_updated_premium_fraction = if r.cp < 0 {
+            margined_common::integer::Integer::new_negative(r.cp.unsigned_abs() as u128)
+        } else {
+            margined_common::integer::Integer::new_positive(r.cp as u128)
+        };
+    }
+    q
+}
+pub fn ref_trader(t: &TraderObs, r: Option<&RefPos>) -> TraderObs {
+    TraderObs {
+        pos: t.pos.as_ref().map(|p| with_ref(p, r)),
+        out_spot: t.out_spot,
+        out_twap: t.out_twap,
+    }
+}
+
+/// Advance the book by one observed step and compare the stored record of the acting trader with it.
+pub fn book_update(book: &RefBook, w: &World, so: &StepObs, out: &mut StepOut, prop: &str) -> RefBook {
+    let mut b = book.clone();
+    if !so.outcome.ok {
+        return b;
+    }
+    let d = DI;
+    let resync = |b: &mut RefBook, k: &str, p: &Option<Position>| match p {
+        Some(p) => {
+            b.insert(k.to_string(), RefPos { size: size_of(p) as i64, margin: p.margin.u128() as i64, notional: p.notional.u128() as i64, cp: itoi(&p.last_updated_premium_fraction) as i64 });
+        }
+        None => {
+            b.remove(k);
+        }
+    };
+    let mut check: Option<(usize, String)> = None;
+    match &so.act {
+        Act::Open { t, v, buy, margin, lev, .. } => {
+            let k = cp_key(*v, t);
+            let va = w.vamms.get(*v).map(|a| a.to_string()).unwrap_or_default();
+            let sw: Vec<&SwapEv> = so.swaps.iter().filter(|s| s.vamm == va).collect();
+            let cum0 = so.pre.vamms[*v].cum;
+            let cum1 = so.post.vamms[*v].cum as i64;
+            let n = (*margin * *lev / D) as i128;
+            let pre = b.get(&k).cloned();
+            let p0 = so.pre_t(*v, t);
+            let stored_dir_long = p0.pos.as_ref().map(|p| p.direction == Direction::AddToAmm);
+            match pre {
+                Some(r) if r.size != 0 => {
+                    let long = r.size > 0;
+                    let owed = tdiv((cum0 - r.cp as i128) * r.size as i128, d);
+                    if long == *buy && sw.len() == 1 {
+                        // increase
+                        let base = sw[0].base as i128;
+                        let sm = n * d / *lev as i128;
+                        b.insert(k.clone(), RefPos {
+                            size: (r.size as i128 + if long { base } else { -base }) as i64,
+                            margin: (r.margin as i128 + sm - owed).max(0) as i64,
+                            notional: (r.notional as i128 + n) as i64,
+                            cp: cum1,
+                        });
+                        check = Some((*v, t.clone()));
+                    } else if long != *buy && sw.len() == 1 && sw[0].input_kind {
+                        // reduce
+                        let delta = sw[0].base as i128;
+                        let vv = p0.out_spot;
+                        let pnl = if long { vv - r.notional as i128 } else { r.notional as i128 - vv };
+                        let realized = tdiv(pnl * delta, (r.size as i128).abs());
+                        let after = pnl - realized;
+                        let notional = if long { vv - n - after } else { after + vv - n };
+                        b.insert(k.clone(), RefPos {
+                            size: (r.size as i128 + if long { -delta } else { delta }) as i64,
+                            margin: (r.margin as i128 + realized - owed).max(0) as i64,
+                            notional: notional.abs() as i64,
+                            cp: cum1,
+                        });
+                        check = Some((*v, t.clone()));
+                    } else if long != *buy && !sw.is_empty() && !sw[0].input_kind {
+                        // reversal: close leg (+ open leg)
+                        if sw.len() == 1 {
+                            b.insert(k.clone(), RefPos { size: 0, margin: 0, notional: 0, cp: 0 });
+                        } else {
+                            let rem = sw[1].quote as i128;
+                            let base = sw[1].base as i128;
+                            b.insert(k.clone(), RefPos {
+                                size: (if *buy { base } else { -base }) as i64,
+                                margin: (rem * d / *lev as i128) as i64,
+                                notional: rem as i64,
+                                cp: cum1,
+                            });
+                        }
+                        check = Some((*v, t.clone()));
+                    } else {
+                        resync(&mut b, &k, &so.post_t(*v, t).pos);
+                        out.tag("refbook:resync");
+                    }
+                }
+                Some(r) if r.margin != 0 || stored_dir_long.map(|l| l != *buy).unwrap_or(false) => {
+                    // zero-size leftover record carrying margin, or re-opened on the other side: the
+                    // engine's path depends on the stored direction of the empty record; not modelled
+                    let _ = r;
+                    resync(&mut b, &k, &so.post_t(*v, t).pos);
+                    out.tag("refbook:resync");
+                }
+                _ => {
+                    // fresh position
+                    if sw.len() == 1 {
+                        let base = sw[0].base as i128;
+                        b.insert(k.clone(), RefPos {
+                            size: (if *buy { base } else { -base }) as i64,
+                            margin: (n * d / *lev as i128) as i64,
+                            notional: n as i64,
+                            cp: cum1,
+                        });
+                        check = Some((*v, t.clone()));
+                    } else {
+                        resync(&mut b, &k, &so.post_t(*v, t).pos);
+                        out.tag("refbook:resync");
+                    }
+                }
+            }
+        }
+        Act::Close { t, v, .. } => {
+            let k = cp_key(*v, t);
+            match (&so.post_t(*v, t).pos, b.get(&k).cloned()) {
+                (None, _) => {
+                    b.remove(&k);
+                }
+                (Some(_), Some(r)) if r.size != 0 && so.swaps.len() == 1 && so.swaps[0].input_kind => {
+                    // partial close: a quote-denominated swap against the position
+                    let long = r.size > 0;
+                    let cum0 = so.pre.vamms[*v].cum;
+                    let owed = tdiv((cum0 - r.cp as i128) * r.size as i128, d);
+                    let e = so.swaps[0].quote as i128;
+                    let delta = so.swaps[0].base as i128;
+                    let vv = so.pre_t(*v, t).out_spot;
+                    let pnl = if long { vv - r.notional as i128 } else { r.notional as i128 - vv };
+                    let realized = tdiv(pnl * delta, (r.size as i128).abs());
+                    let after = pnl - realized;
+                    let notional = if long { vv - e - after } else { after + vv - e };
+                    b.insert(k.clone(), RefPos {
+                        size: (r.size as i128 + if long { -delta } else { delta }) as i64,
+                        margin: (r.margin as i128 + realized - owed).max(0) as i64,
+                        notional: notional.abs() as i64,
+                        cp: so.post.vamms[*v].cum as i64,
+                    });
+                    check = Some((*v, t.clone()));
+                }
+                (p, _) => {
+                    let p = p.clone();
+                    resync(&mut b, &k, &p);
+                    out.tag("refbook:resync");
+                }
+            }
+        }
+        Act::Dep { t, v, amt } => {
+            let k = cp_key(*v, t);
+            if let Some(r) = b.get_mut(&k) {
+                r.margin += *amt as i64;
+                check = Some((*v, t.clone()));
+            } else {
+                resync(&mut b, &k, &so.post_t(*v, t).pos);
+            }
+        }
+        Act::Wd { t, v, amt } => {
+            let k = cp_key(*v, t);
+            if let Some(r) = b.get_mut(&k) {
+                let cum0 = so.pre.vamms[*v].cum;
+                let owed = tdiv((cum0 - r.cp as i128) * r.size as i128, d);
+                r.margin = (r.margin as i128 - owed - *amt as i128).max(0) as i64;
+                r.cp = so.post.vamms[*v].cum as i64;
+                check = Some((*v, t.clone()));
+            } else {
+                resync(&mut b, &k, &so.post_t(*v, t).pos);
+            }
+        }
+        Act::Liq { t, v, .. } => {
+            // full: gone; partial: the property does not fix the bookkeeping of the remainder - resync
+            let k = cp_key(*v, t);
+            resync(&mut b, &k, &so.post_t(*v, t).pos);
+        }
+        _ => {}
+    }
+    if let Some((v, t)) = check {
+        let k = cp_key(v, &t);
+        out.tag("refbook:records-compared");
+        match (&so.post_t(v, &t).pos, b.get(&k)) {
+            (Some(p), Some(r)) => {
+                let fields = [
+                    ("size", size_of(p), r.size as i128, 0i128),
+                    ("margin", p.margin.u128() as i128, r.margin as i128, 2),
+                    ("open-notional", p.notional.u128() as i128, r.notional as i128, 2),
+                    ("funding-checkpoint", itoi(&p.last_updated_premium_fraction), r.cp as i128, 0),
+                ];
+                for (name, got, exp, tol) in fields {
+                    if (got - exp).abs() > tol {
+                        out.viol(
+                            format!("{}:position-record-differs-from-reference:{}:{}", prop, name, so.act.kind()),
+                            format!("after {:?} the stored {} is {} but the reference model gives {} (reference {:?}, stored {:?})", so.act, name, got, exp, r, p),
+                        );
+                    }
+                }
+            }
+            (None, Some(r)) => out.viol(
+                format!("{}:position-record-differs-from-reference:missing:{}", prop, so.act.kind()),
+                format!("after {:?} no record is stored but the reference model has {:?}", so.act, r),
+            ),
+            _ => {}
+        }
+    }
+    b
+}
+
 // --------------------------------------------------------------------------------------- C04
-pub fn oracle_c04(w: &World, so: &StepObs, out: &mut StepOut, cps: &CpRef) {
+pub fn oracle_c04(w: &World, so: &StepObs, out: &mut StepOut, cps: &CpRef, book: &RefBook) {
     let eng = w.engine.to_string();
     if let Act::Close { t, v, .. } = &so.act {
         let p0 = so.pre_t(*v, t);
-        if let Some(pp) = &p0.pos {
+        if let Some(pp_stored) = &p0.pos {
+            // value the position from the reference book, not from the stored fields
+            let pp_ref = with_ref(pp_stored, book.get(&cp_key(*v, t)));
+            let pp = &pp_ref;
             if !pp.size.is_zero() && p0.out_spot >= 0 {
                 let cum = so.pre.vamms[*v].cum;
                 let pnl = pnl_of(pp, p0.out_spot);
@@ -443,7 +681,7 @@ pub fn ref_free_collateral(t: &TraderObs, v: &VammObs, imr: u128) -> Option<i128
     Some(min_coll - req)
 }
 
-pub fn oracle_c05(w: &World, so: &StepObs, out: &mut StepOut) {
+pub fn oracle_c05(w: &World, so: &StepObs, out: &mut StepOut, pre_book: &RefBook, post_book: &RefBook) {
     let eng = w.engine.to_string();
     let cfg = &w.cfg;
     match &so.act {
@@ -460,7 +698,9 @@ pub fn oracle_c05(w: &World, so: &StepObs, out: &mut StepOut) {
                         format!("{:?} succeeded with initial ratio {}", so.act, cfg.imr),
                     );
                 }
-                let post = so.post_t(*v, t);
+                let post_stored = so.post_t(*v, t);
+                let post_ref = ref_trader(post_stored, post_book.get(&cp_key(*v, t)));
+                let post = &post_ref;
                 if let Some(p) = &post.pos {
                     if !p.size.is_zero() {
                         if let Some(r) = ref_ratio(post, &so.post.vamms[*v], false) {
@@ -486,7 +726,9 @@ pub fn oracle_c05(w: &World, so: &StepObs, out: &mut StepOut) {
             }
         }
         Act::Wd { t, v, amt } => {
-            let p0o = so.pre_t(*v, t);
+            let p0o_stored = so.pre_t(*v, t);
+            let p0o_ref = ref_trader(p0o_stored, pre_book.get(&cp_key(*v, t)));
+            let p0o = &p0o_ref;
             if let Some(p0) = &p0o.pos {
                 let owed = owed_of(p0, so.pre.vamms[*v].cum);
                 let after = p0.margin.u128() as i128 - owed - *amt as i128;
@@ -501,8 +743,10 @@ pub fn oracle_c05(w: &World, so: &StepObs, out: &mut StepOut) {
                             format!("margin {} owed {} amount {} in {:?}", p0.margin, owed, amt, so.act),
                         );
                     }
-                    let post = so.post_t(*v, t);
-                    if let Some(p1) = &post.pos {
+                    let post_stored = so.post_t(*v, t);
+                    let post_ref = ref_trader(post_stored, post_book.get(&cp_key(*v, t)));
+                    let post = &post_ref;
+                    if let Some(p1) = &post_stored.pos {
                         if (p1.margin.u128() as i128 - after.max(0)).abs() > 1 {
                             out.viol(
                                 "C05:withdraw-margin-delta",
